@@ -17,7 +17,9 @@ vars == <<l, cfg, tbl, cur, got, dead>>
 
 \* cfg.joins = <<[name, kind, on, tcols]>> in SQL order; tbl = one table (sequence of rows) per join
 TKey(j, t) == [i \in 1..Len(cfg.joins[j].on) |-> KeyOf(Col(t, cfg.joins[j].on[i][2]))]
-SKey(j, r) == [i \in 1..Len(cfg.joins[j].on) |-> KeyOf(Col(r, cfg.joins[j].on[i][1]))]
+\* an ON pair is <<stream column, table column>> or <<text, table column, path>> when the stream side is a nested path
+SVal(r, p) == IF Len(p) = 3 THEN ColPath(r, p[3]) ELSE Col(r, p[1])
+SKey(j, r) == [i \in 1..Len(cfg.joins[j].on) |-> KeyOf(SVal(r, cfg.joins[j].on[i]))]
 HasNullKey(k) == \E i \in 1..Len(k) : k[i] = <<"null">>
 JoinOf(name) == CHOOSE j \in 1..Len(cfg.joins) : cfg.joins[j].name = name
 UpsertIn(j, t, row) == LET hits == {i \in 1..Len(t) : TKey(j, t[i]) = TKey(j, row)} IN
@@ -53,7 +55,10 @@ Next ==
   /\ LET e == Trace[l] IN
      IF e.e = "reset" THEN cfg' = e /\ tbl' = [j \in 1..Len(e.joins) |-> <<>>] /\ cur' = [x \in {} |-> Null] /\ got' = TRUE /\ dead' = FALSE
      ELSE IF dead THEN UNCHANGED <<cfg, tbl, cur, got, dead>>
-     ELSE IF e.e = "table" THEN tbl' = [tbl EXCEPT ![JoinOf(e.name)] = Load(JoinOf(e.name), <<>>, e.rows)] /\ UNCHANGED <<cfg, cur, got, dead>>
+     ELSE IF e.e = "table" THEN     \* (re-)registration: the rows replace the table; a row processed before must already have its result
+        /\ IF Pending THEN Reject("matching_row_dropped") ELSE UNCHANGED dead
+        /\ tbl' = [tbl EXCEPT ![JoinOf(e.name)] = Load(JoinOf(e.name), <<>>, e.rows)]
+        /\ got' = TRUE /\ UNCHANGED <<cfg, cur>>
      ELSE IF e.e = "in" THEN
         \* lock-step: the previous row has been processed against the table state of ITS time (checked at its out/ret)
         /\ cur' = e.row /\ got' = FALSE /\ UNCHANGED <<cfg, tbl, dead>>
